@@ -549,6 +549,9 @@ def rd_case(rng):
     else:
         d, fam = rng.choice([b"G", b"GIF8", b"\x00", b""]) + rng.bytes(rng.range(0, 60)), "random"
         tga = rng.below(2)
+    if rng.chance(1, 5):        # BMP through cjpeg's inversion-array reader
+        d, tag = bmp_file(rng)
+        fam, tga = "bmpcj" + ("-mut" if ("-mut" in tag or "-trunc" in tag or "-flip" in tag) else ""), 0
     mp = rng.choice([1 << 20, 1 << 20, 1 << 20, 4096, 50])
     return "rd %d %d %s" % (mp, tga, d.hex()), "rd-" + fam, {"maxpixels": mp, "prec": 8}
 
